@@ -65,6 +65,11 @@ def build(sk, dialect):
         frm = f"(SELECT {col('t', 'a')} AS a, {col('t', 'b')} AS b FROM t) AS x"
         sel_cols = [(col("x", "a", q == "partial"), "a"), (col("x", "b"), "b")]
         src_alias, star_cols = "x", [("x", "a"), ("x", "b")]
+    elif shape == "derived_join":
+        # a derived table written BEFORE a physical table: * must expand in FROM order
+        frm = f"(SELECT {col('t', 'a')} AS a, {col('t', 'b')} AS b FROM t) AS x JOIN u ON x.a = u.a"
+        sel_cols = [("x.a", "a"), (col("x", "b"), "b"), (col("u", "c"), "c")]
+        src_alias, star_cols = "x", [("x", "a"), ("x", "b"), ("u", "a"), ("u", "c")]
     elif shape == "cte":
         prefix = f"WITH c AS (SELECT {col('t', 'a')} AS a, {col('t', 'b')} AS b FROM t) "
         frm = "c"
@@ -117,7 +122,7 @@ def build(sk, dialect):
             want = [((f"{first_tbl}.{rc} + 1" if n == rc else e), n) for e, n in want]
         if shape == "join" and sk["using"]:
             return None  # with USING sqlglot shows the merged column as COALESCE(t.a, u.a); covered by the non-star variants
-        if shape in ("join", "lateral") and star in ("except", "replace") and len({c for _, c in cols}) < len(cols):
+        if shape in ("join", "lateral", "derived_join") and star in ("except", "replace") and len({c for _, c in cols}) < len(cols):
             return None  # EXCEPT / REPLACE by name over a bare star with duplicate column names is not well defined
         sel_sql = target + mod
         expanded_sel = ", ".join(f"{e} AS {n}" for e, n in want)
@@ -153,7 +158,7 @@ def build(sk, dialect):
                 return None
             ordr = " ORDER BY k"
         elif order == "col":
-            ordr = f" ORDER BY {col('t', 'k') if src_alias == 't' and shape not in ('derived', 'cte', 'cte_cols') else first_n}"
+            ordr = f" ORDER BY {col('t', 'k') if src_alias == 't' and shape not in ('derived', 'cte', 'cte_cols', 'derived_join') else first_n}"
         elif order == "position":
             ordr = " ORDER BY 1"
         elif order == "expr":
@@ -428,7 +433,10 @@ def run(ctx):
             else:
                 sk = m["sk"]
                 feats = [f"shape:{sk['shape']}"] + [f"{k}:{sk[k]}" for k in ("star", "order") if sk[k] != "none"] + ([f"group:{sk['group']}"] if sk["group"] != "none" and sk["star"] == "none" else []) + (["using"] if sk["using"] and sk["shape"] == "join" else []) + ([f"names:{sk['names']}"] if sk["names"] != "lower" else [])
-                ctx.violation(f"{clause}:{'+'.join(feats)}:{FOLDING[m['dialect']]}",
+                key = f"{clause}:{'+'.join(feats)}:{FOLDING[m['dialect']]}"
+                if clause == "StarsExpanded" and sk["shape"] == "derived_join" and sk["star"] == "bare" and all(sorted(map(str, x["got"])) == sorted(map(str, x["want"])) for x in c["stars"]):
+                    key = "StarsExpanded:star_order:derived_table_before_table"   # the same columns in another order
+                ctx.violation(key,
                               f"{clause} fails for qualify({m['sql']!r}) in {m['dialect'] or 'base'} (schema depth {sk['depth']}): outcome {c['outcome']}, names {c['names_out']} (want {c['names_want']}), "
                               f"unresolved columns {[x for x in c['cols'] if not ((x['qual'] and x['qual'] in x['visible']) or (not x['qual'] and x['outref']))][:3]}, stars {c['stars'][:1]}",
                               {k: m[k] for k in m})
